@@ -356,6 +356,21 @@ func runBuilder(r *vt.Run, t vt.TB, s spec) {
 				return db.PKSelect("w", key, emit, wcols...)
 			}))
 		}
+		// secondary indexes: every entry is looked up in the table by its
+		// primary key (nested lookups)
+		for name, bi := range w.Indexes {
+			name, bi := name, bi
+			ops = append(ops, hlOp("IndexedSelect(w,"+name+")", true, func(db *sqlittle.DB, emit func(sqlittle.Row)) error {
+				return db.IndexedSelect("w", name, emit, wcols...)
+			}))
+			var key sqlittle.Key
+			if len(bi.Entries) > 0 {
+				key = sqlittle.Key{bi.Entries[next(len(bi.Entries))].Values[0].Go()}
+			}
+			ops = append(ops, hlOp(fmt.Sprintf("IndexedSelectEq(w,%s,%v)", name, key), true, func(db *sqlittle.DB, emit func(sqlittle.Row)) error {
+				return db.IndexedSelectEq("w", name, key, emit, wcols...)
+			}))
+		}
 	}
 	depth := tt.Shape.Depth
 	faults, nested, ok := enumerate(r, t, s, built.Img, s.Img.PageSize, ops, confirm)
